@@ -220,9 +220,9 @@ def eval_cases(files):
             errs.append((f, "cannot parse coqc output: " + o[-1000:]))
             continue
         body = m.group(1)
-        for t in re.finditer(r"\((\d+),\s*(\d+),\s*(\d+)\)", body):
+        for t in re.finditer(r"\(\s*(\d+),\s*(\d+),\s*(\d+)\s*\)", body):
             res.append((f, int(t.group(1)), int(t.group(2)), int(t.group(3))))
-        if body.strip() not in ("[]", "nil") and not re.search(r"\(\d+", body):
+        if body.strip() not in ("[]", "nil") and not re.search(r"\(\s*\d+", body):
             errs.append((f, "unexpected R: " + body[:500]))
     for f in files:
         for ext in (".vo", ".vok", ".vos", ".glob"):
@@ -485,6 +485,21 @@ def run_check(pid, tier, seed, replay):
         notes.append("proof obligations not all discharged: " + broken_detail)
         log("PROOF BROKEN:", broken_detail)
 
+    # 2a. thorough tier: independent re-check of this property's theorems and everything they depend on
+    coqchk_note = None
+    if tier == "thorough" and not replay and not proof_broken and not os.environ.get("VERIF_NOCOQCHK"):
+        t = time.time()
+        rc3, o3 = sh(["timeout", "3000", "coqchk", "-silent", "-o", "-Q", ".", "V", "V.Props.%s" % pid], cwd=COQ, timeout=3100)
+        log("coqchk: rc=%d %.1fs" % (rc3, time.time() - t))
+        summ = o3[o3.find("CONTEXT SUMMARY"):] if "CONTEXT SUMMARY" in o3 else o3[-1500:]
+        coqchk_note = re.sub(r"\s+", " ", summ)[:1500]
+        ax = re.search(r"\* Axioms:\s*(.*?)\s*\* Constants", summ, flags=re.S)
+        bad = rc3 != 0 or not ax or ax.group(1).strip() != "<none>" or summ.count("<none>") < 4
+        if bad:
+            proof_broken = True
+            broken_detail = "coqchk -o V.Props.%s: %s" % (pid, coqchk_note)
+            notes.append(broken_detail)
+
     # 2b. diagnosis of generated-table obligations (concrete offending entries)
     diag = None
     if spec.get("diag"):
@@ -676,6 +691,7 @@ def run_check(pid, tier, seed, replay):
             "print_assumptions": pnote or "Closed under the global context (all)",
             "known_findings_seen": [k[0] for k in known_printed],
             "notes": notes,
+            "coqchk": coqchk_note or "not run in this tier (thorough tier runs coqchk -silent -o on V.Props.%s)" % pid,
         },
         "assumptions": spec.get("assumptions", []),
         "wall_s": round(time.time() - t0, 2),
